@@ -120,17 +120,27 @@ impl Property for C13 {
         let mut blocker: Option<u64> = None;
         let (mut grew_after_store, mut stored, mut shrunk, mut regrown) = (false, false, false, false);
         let mut classes: Vec<&'static str> = vec![];
+        let a_call_failed = std::cell::Cell::new(false);
         let syscall = |ax: &mut Axecutor, arg: u64| -> Api<u64> {
             ax.reg_write_64(SR::RIP, code_at + OFF_SYSCALL).unwrap();
             ax.reg_write_64(SR::RAX, 12).unwrap();
             ax.reg_write_64(SR::RDI, arg).unwrap();
             match step(ax) {
                 Api::Ok(_) => Api::Ok(ax.reg_read_64(SR::RAX).unwrap()),
-                Api::Err(e) => Api::Err(e),
+                Api::Err(e) => {
+                    a_call_failed.set(true);
+                    Api::Err(e)
+                }
                 Api::Panic(p) => Api::Panic(p),
             }
         };
         for (n, op) in c.ops.iter().enumerate() {
+            // whether a machine can go on after a failed step is not this property's business: if an
+            // earlier call of this history failed and the machine now counts as finished, the history ends
+            if a_call_failed.get() && ax.verif_finished() {
+                classes.push("history-ended:machine-finished-after-a-failed-call");
+                break;
+            }
             let desc = format!("op #{} {:x?}", n, op);
             match op {
                 Op::Query => {
